@@ -289,6 +289,10 @@ def doubling_verdict(series):
 
 def run_family(acc, name, variant, sizes):
     gen, kind = FAMILIES[name]
+    if name in BLOCK_FAMILIES:
+        # CPython's limit of 100 indentation levels is the parser's as well: the deepest size stays below it
+        cap = 48 if name in ("match_blocks", "try_blocks") else 96  # (two levels of indentation per nesting level there)
+        sizes = list(dict.fromkeys(min(n, cap) for n in sizes))
     series = []
     steps_series = []
     case = {"family": name, "variant": variant, "sizes": sizes}
@@ -381,6 +385,15 @@ TIME_PARSE_FAMILIES = {
     # many nodes on one long non-ASCII line: every node's columns are converted to byte offsets
     "nonascii_names_on_one_line": lambda n: "x = [" + ", ".join("\u00e9%d" % i for i in range(n // 8)) + "]\n",
     "nonascii_names_many_lines": lambda n: "".join("\u00e9%d = '\u00fc'\n" % i for i in range(n // 8)),
+    # passes that must not copy or rescan what they have seen so far (all linear in token reads; only the CPU time shows them)
+    "lambdas_in_fstring_field": lambda n: "x = f'{(" + "lambda: 1, " * (n // 4) + ")}'\n",
+    "fstrings_with_lambda_fields": lambda n: "x = f'{(lambda: 1)}'\n" * (n // 4),
+    "glued_word_after_inject": lambda n: "$(echo @(b)" + "-a" * n + ")\n",
+    "glued_long_tokens": lambda n: "$(echo " + ("a" * 50 + "-") * (n // 2) + "b)\n",
+    "bytes_concat": lambda n: "x = (" + ("b'" + "a" * 50 + "' ") * (n // 2) + ")\n",
+    "fstring_concat": lambda n: "x = (" + ("f'" + "a" * 50 + "' ") * (n // 2) + ")\n",
+    "numbers_long_line": lambda n: "x = [" + ("1" * 20 + ", ") * n + "]\n",
+    "debug_fields_long_line": lambda n: "x = f'" + ("{" + "a" * 50 + "=}") * (n // 2) + "'\n",
     "nonascii_identifiers_nfkc": lambda n: "x = [" + ", ".join("\ufb01%d" % i for i in range(n // 8)) + "]\n",
 }
 # finding F18e: the search-path pattern scans to the end of the line from every backtick
